@@ -603,7 +603,7 @@ func Render(w *Work) string {
 	}
 	if w.ListClose && w.ListForm == 1 {
 		// ... and whichever way it reaches a function: parameters bound from list elements, used by the receive STATEMENT
-		fmt.Fprintf(&b, "chl = [ch0, dn]\ngo func(jc, jd) {\nfor k = 0; k < %d; k++ {\njv, jok = <-jd\nif !jok { break }\n}\nvar je = jd\njw = 0\nif false { jw = <-je }\ncl0 = true\nclose(jc)\n}(chl[0], chl[1])\n", np)
+		fmt.Fprintf(&b, "chl = [ch0, dn]\ngo func(jc, jd) {\nfor k = 0; k < %d; k++ {\njv, jok = <-jd\nif !jok { break }\n}\nvar je = jd\njw = 0\nif false { jw = <-je }\njq = [make(chan int64, 1)]\njq[0] <- 1\nclose(jq[0])\nfor jz in jq[0] { jw = jz }\ncl0 = true\nclose(jc)\n}(chl[0], chl[1])\n", np)
 	} else if w.ListClose {
 		// a channel is the same channel wherever the script keeps it
 		fmt.Fprintf(&b, "chl = [ch0, dn]\ngo func() {\nfor k = 0; k < %d; k++ { <-chl[1] }\ncl0 = true\nclose(chl[0])\n}()\n", np)
